@@ -1,13 +1,14 @@
 SPECIFICATION Spec
 CONSTANTS
-  Scenario = "nkbare"
-  N = 3
+  Scenario = "awaitq"
+  N = 16
   Cap = 16
-  Kinds <- KindsDDV
+  Kinds <- KindsNone
   Script <- ScriptNone
   Readers = 0
   GenK = 1
 VIEW View
 INVARIANT Inv_NoLostWake
+INVARIANT Inv_NoEarlySuccess
 ACTION_CONSTRAINT GenEdge
 CHECK_DEADLOCK FALSE
